@@ -79,6 +79,28 @@ func c20Id(e *env, s string) {
 	e.emit("C20.id", hx(s), tid, tids, pwm, vld)
 }
 
+// c20NoId: the resolvers on a context that carries no organisation identifier at all.
+func c20NoId(e *env) {
+	ctx := context.Background()
+	var tid, tids, pwm string
+	if t, err := tenant.TenantID(ctx); err != nil {
+		tid = "err:" + c20ErrClass(err)
+	} else {
+		tid = "ok:" + hx(t)
+	}
+	if ts, err := tenant.TenantIDs(ctx); err != nil {
+		tids = "err:" + c20ErrClass(err)
+	} else {
+		tids = "ok:" + hxs(ts)
+	}
+	if t, m, err := tenant.ExtractWithMetadata(ctx); err != nil {
+		pwm = "err:" + c20ErrClass(err)
+	} else {
+		pwm = "ok:" + hx(t) + "/" + hx(m.Encode())
+	}
+	e.emit("C20.noid", "-", "-", tid, tids, pwm)
+}
+
 var c20Alphabet = []byte{'a', 'Z', '0', '.', '|', ':', '/', 0, 0xFF, '=', '-'}
 
 func c20RandString(r *rng) string {
@@ -261,6 +283,7 @@ func c20Chain(e *env, id *string, hops []c20Hop) {
 }
 
 func runC20(e *env) {
+	c20NoId(e)
 	// 1. exhaustive strings of length <= 3 over the 11-symbol alphabet
 	var rec func(prefix []byte, depth int)
 	rec = func(prefix []byte, depth int) {
